@@ -91,6 +91,10 @@ type Host struct {
 	FetchKO bool       `json:"fetchko"`       // the Fetch call itself fails
 	Ops     []StreamOp `json:"ops,omitempty"` // edits of the fetch stream
 	T       int        `json:"t,omitempty"`   // kind dl: logical time at which the Search answer becomes available (-1 = never)
+	// beh err: what the replica's refusal looks like while the request context is alive: 0 = Unavailable / plain error
+	// (Legacy), 1 = gRPC status DeadlineExceeded, 2 = gRPC status Canceled (a deadline / cancellation OF THE STORE'S OWN),
+	// 3 = the plain value context.DeadlineExceeded, 4 = context.Canceled
+	ErrKind int `json:"errkind,omitempty"`
 }
 
 type Script struct {
@@ -129,6 +133,9 @@ type Script struct {
 	// api-search | api-complex | api-agg | api-hist
 	D     int    `json:"d,omitempty"`
 	Entry string `json:"entry,omitempty"`
+	// kind retain (retain.go): NFr sealed fractions, one retention pass truncating the Trunc oldest
+	NFr   int `json:"nfr,omitempty"`
+	Trunc int `json:"trunc,omitempty"`
 }
 
 // one QPR handed to seq.MergeQPRs
@@ -233,6 +240,16 @@ func (f0 *fakeClient) Search(ctx context.Context, in *storeapi.SearchRequest, op
 		}
 		return resp, nil
 	case "err":
+		switch f.h.ErrKind {
+		case 1:
+			return nil, status.Error(codes.DeadlineExceeded, "store-side deadline exceeded")
+		case 2:
+			return nil, status.Error(codes.Canceled, "store cancelled the request")
+		case 3:
+			return nil, context.DeadlineExceeded
+		case 4:
+			return nil, context.Canceled
+		}
 		if f.h.Legacy {
 			return nil, errors.New("connection refused")
 		}
@@ -389,6 +406,7 @@ type outcome struct {
 	weirdErr string
 	unmapped bool
 	dl       *dlState // kind dl: what the stores saw
+	ret      *retainObs
 }
 
 type gotDoc struct {
@@ -498,6 +516,18 @@ func execute(sc *Script) []*outcome {
 	}
 	if sc.Kind == "dl" {
 		return []*outcome{executeDl(sc)}
+	}
+	if sc.Kind == "retain" {
+		o := &outcome{r: &run{streams: map[int][]sentDoc{}, fetchIDs: map[ID]int{}}}
+		func() {
+			defer func() {
+				if p := recover(); p != nil {
+					o.panicked = fmt.Sprint(p)
+				}
+			}()
+			executeRetain(sc, o)
+		}()
+		return []*outcome{o}
 	}
 	return []*outcome{runOne(context.Background(), sc, build(sc))}
 }
@@ -1008,6 +1038,10 @@ func record(w *casefile.Writer, sc *Script, o *outcome, input any, suffix string
 		recordDl(w, sc, o, input)
 		return
 	}
+	if sc.Kind == "retain" {
+		recordRetain(w, sc, o, input)
+		return
+	}
 	if sc.Kind == "fetch" && sc.Fds {
 		recordFds(w, sc, o, input)
 		return
@@ -1145,6 +1179,11 @@ func record(w *casefile.Writer, sc *Script, o *outcome, input any, suffix string
 	}
 	if hasExtras(sc) {
 		w.Count("search:with-totals-hist-aggs")
+	}
+	for _, h := range allHosts(sc) {
+		if h.Beh == "err" && h.ErrKind > 0 {
+			w.Count("search:replica-refuses-with-" + []string{"", "status-DeadlineExceeded", "status-Canceled", "context.DeadlineExceeded", "context.Canceled"}[h.ErrKind] + "-while-request-context-alive")
+		}
 	}
 	w.Add(fmt.Sprintf("%s %s %s %s %d %d %s %d%%N %d %s %s", ctor, hot, hotread, cold, sc.Off, sc.Size, casefile.Bool(sc.Rev),
 		sc.Itv, sc.NAggs, natsCoq(ffail), impl),
@@ -1816,6 +1855,9 @@ func genTier(r *rng.R, nsh, nrep int, sc *Script, disjoint bool, okBias int, sha
 			if !r.Chance(okBias, 10) {
 				h.Beh = rng.Pick(r, behs)
 			}
+			if h.Beh == "err" {
+				h.ErrKind = r.Intn(5)
+			}
 			if h.Beh == "ok" {
 				h.IDs = genIDs(r, shardBase+s, disjoint, sc.Off+sc.Size, sc.Rev)
 			}
@@ -2000,9 +2042,12 @@ func genSeq(r *rng.R) *Script {
 						case mode == 2 && r.Chance(1, 3):
 							h.Beh = rng.Pick(r, behs)
 						}
-						h.IDs, h.X = nil, nil
+						h.IDs, h.X, h.ErrKind = nil, nil, 0
 						if h.Beh == "ok" {
 							h.IDs = genIDs(r, si, false, st.Off+st.Size, st.Rev)
+						}
+						if h.Beh == "err" {
+							h.ErrKind = r.Intn(5)
 						}
 						h.FetchKO = false
 						h.Ops = genOps(r)
@@ -2093,6 +2138,9 @@ func genExhaustive() []*Script {
 			var hosts []Host
 			for i := 0; i < 4; i++ {
 				h := Host{Beh: behs[x%5], Legacy: (a+i)%2 == 0}
+				if h.Beh == "err" {
+					h.ErrKind = (a/5 + i) % 5
+				}
 				x /= 5
 				if h.Beh == "ok" {
 					h.IDs = idsOf[i]
@@ -2175,7 +2223,7 @@ func main() {
 		os.Exit(2)
 	}
 	logger.SetLevel(zapcore.FatalLevel)
-	w, err := casefile.New(*out, "C16", "From VLib Require Import CaseLib.\nFrom C16 Require Import Model ModelExt ModelDeadline CaseDefs.", 300)
+	w, err := casefile.New(*out, "C16", "From VLib Require Import CaseLib.\nFrom C16 Require Import Model ModelExt ModelDeadline ModelRetain CaseDefs.", 300)
 	if err != nil {
 		panic(err)
 	}
@@ -2231,6 +2279,13 @@ func main() {
 		nDl = 4000
 	}
 	scripts = append(scripts, genDlBoundary()...)
+	nRetain := 1
+	if *tier == "thorough" {
+		nRetain = 4
+	}
+	for i := 0; i < nRetain; i++ {
+		scripts = append(scripts, genRetain()...)
+	}
 	for i := 0; i < nDl; i++ {
 		scripts = append(scripts, genDl(r.Fork()))
 	}
